@@ -1491,6 +1491,77 @@ example : SolvesDamped ([[1], [2]] : DMat ℝ) [1] [2/3] [-2, -1] := by
   simp [SolvesDamped, tmulVec, DMat.mulVec, DVec.dot, DVec.sum, DVec.add, DVec.smul, DVec.neg, DVec.zero, k_real]
   norm_num
 
+/-! ## pass 10: the diagonal shift `Λ` is the code's own, and it is positive
+
+`qualityDen_pos_of_normal_equations` / `rejected_lm_step_unsuccessful` assumed `Λ_j > 0`. Here `Λ` is computed as `LM.step`
+computes it — `diag(JᵀJ)` clamped once to `[pg['min'], pg['max']]`, then `d ← d + d·damping` in every trial of the call on
+the same tensor (`lmDiag`, `lmShift`, `lmShiftVec` in `Pose/Model/LMNormal.lean`, op `c08.diag`) — and shown positive from
+`0 < min ≤ max`, `(JᵀJ)_jj ≤ max` and positive dampings (which the strategy bounds give: `damping_pos_of_inBounds`). -/
+
+/-- **closed form of the accumulated damping**: after the trials with dampings `λ₁ … λ_t` the diagonal entry is
+`clamp(a, min, max) · Π (1 + λ_k)` — the damping of the earlier, rejected trials of the call stays in the matrix. -/
+theorem lmDiag_closed (lo hi a : ℝ) (damps : List ℝ) :
+    lmDiag lo hi a damps = min (max a lo) hi * (damps.map (fun lam => 1 + lam)).prod := by
+  unfold lmDiag; rw [foldl_damp, tclamp_eq]
+
+/-- **the shift is positive** — at least `min · (Π(1+λ_k) − 1)` — whenever the entry is not cut by the upper bound -/
+theorem lmShift_pos (lo hi a : ℝ) (damps : List ℝ) (hlo : 0 < lo) (hlh : lo ≤ hi) (ha : a ≤ hi)
+    (hp : ∀ l ∈ damps, 0 < l) (hne : damps ≠ []) :
+    0 < lmShift lo hi damps a ∧ lo * ((damps.map (fun lam => 1 + lam)).prod - 1) ≤ lmShift lo hi damps a := by
+  unfold lmShift
+  rw [lmDiag_closed, min_eq_left (max_le ha hlh)]
+  have hP := prod_one_add_gt damps hp hne
+  have h1 : lo ≤ max a lo := le_max_right _ _
+  have h2 : a ≤ max a lo := le_max_left _ _
+  have h3 : 0 < lo * ((damps.map (fun lam => 1 + lam)).prod - 1) := mul_pos hlo (sub_pos.mpr hP)
+  have h4 : lo * ((damps.map (fun lam => 1 + lam)).prod - 1) ≤ max a lo * ((damps.map (fun lam => 1 + lam)).prod - 1) :=
+    mul_le_mul_of_nonneg_right h1 (sub_pos.mpr hP).le
+  constructor <;> nlinarith
+
+/-- the restriction `a ≤ max` is needed: an entry cut down by the upper bound can get a NEGATIVE shift
+(`a = 4`, `min = max = 1`, damping 1: `1·2 − 4 = −2`) -/
+example : lmShift (1 : ℝ) 1 [1] 4 < 0 := by
+  unfold lmShift; rw [lmDiag_closed]; norm_num
+
+theorem lmShiftVec_pos (n : Nat) (J : DMat ℝ) (lo hi : ℝ) (damps : List ℝ) (hlo : 0 < lo) (hlh : lo ≤ hi)
+    (hmax : ∀ a ∈ diagJtJ n J, a ≤ hi) (hp : ∀ l ∈ damps, 0 < l) (hne : damps ≠ []) :
+    ∀ l ∈ lmShiftVec n lo hi damps J, 0 < l := by
+  intro l hl
+  unfold lmShiftVec at hl
+  obtain ⟨a, ha, rfl⟩ := List.mem_map.mp hl
+  exact (lmShift_pos lo hi a damps hlo hlh (hmax a ha) hp hne).1
+
+/-- within the strategy's bounds (an invariant of every history: `lmRun_inBounds`) the damping is positive -/
+theorem damping_pos_of_inBounds (kd : Kind) (h : Hyper ℝ) (s : SState ℝ) (hk : kd ≠ Kind.constant) (hpos : 0 < h.smin)
+    (hb : InBounds kd h s) : 0 < s.damping := by
+  cases kd with
+  | constant => exact absurd rfl hk
+  | adaptive => exact lt_of_lt_of_le hpos hb.1
+  | trust =>
+    obtain ⟨h1, _, _, _, h5⟩ := hb
+    have hr : 0 < s.radius := lt_of_lt_of_le hpos h1
+    by_contra hd
+    have : s.damping * s.radius ≤ 0 := mul_nonpos_of_nonpos_of_nonneg (not_lt.mp hd) hr.le
+    linarith
+
+/-- **A rejected trial of the code's own linear system is classified "unsuccessful"**: `D ≠ 0` solves
+`(JᵀJ + diag Λ) D = −JᵀR` with `Λ` as `LM.step` builds it at the trial whose accumulated dampings are `damps`; no
+hypothesis on `Λ` or on the predicted decrease is left — only `0 < min ≤ max`, `(JᵀJ)_jj ≤ max`, positive dampings. -/
+theorem rejected_code_step_unsuccessful (J : DMat ℝ) (Dv R : DVec ℝ) (lo hi : ℝ) (damps : List ℝ)
+    (hw : ∀ r ∈ J, r.length = Dv.length) (hlen : R.length = J.length) (hlo : 0 < lo) (hlh : lo ≤ hi)
+    (hmax : ∀ a ∈ diagJtJ Dv.length J, a ≤ hi) (hp : ∀ l ∈ damps, 0 < l) (hne : damps ≠ [])
+    (hD : ∃ x ∈ Dv, x ≠ 0) (hs : SolvesDamped J (lmShiftVec Dv.length lo hi damps J) Dv R)
+    (high low last loss : ℝ) (hworse : last < loss) (hh : 0 < high) (hl : 0 < low) :
+    verdict high low (last - loss) (qualityDen J Dv R) = Verdict.bad :=
+  rejected_lm_step_unsuccessful J _ Dv R hw hlen (by simp [lmShiftVec, diagJtJ_length _ J hw])
+    (lmShiftVec_pos _ J lo hi damps hlo hlh hmax hp hne) hD hs high low last loss hworse hh hl
+
+/-- non-vacuity: the system of the pass-7 example is the code's system with `min = 1/2`, `max = 10`, damping `1/5`:
+`diag(JᵀJ) = [5]`, `Λ = 5·(1 + 1/5) − 5 = 1` -/
+example : lmShiftVec 1 (1/2 : ℝ) 10 [1/5] [[1], [2]] = [1] := by
+  simp [lmShiftVec, diagJtJ, lmShift, lmDiag_closed, DVec.add, DVec.zero, k_real]
+  norm_num
+
 /-! ## non-vacuity: concrete runs of the model (`P = D = ℚ`-like reals, loss `x²`) -/
 
 section examples
